@@ -319,6 +319,46 @@ func runC12(args []string) int {
 			r.sample(map[string]interface{}{"records": s.specArgs(), "decoded": fmt.Sprintf("%.300s", impl.observable())})
 		}
 	}
+	// the time rules are per file: in a chain (DecodeChained) every file starts without a reference, whatever the
+	// files before it set
+	for i := 0; i < n/12; i++ {
+		ss := []*stream{genTimeStream(rg, st), genTimeStream(rg, st)}
+		if rg.chance(1, 3) {
+			ss = append(ss, genTimeStream(rg, st))
+		}
+		var data []byte
+		for _, s := range ss {
+			data = append(data, s.bytes()...)
+		}
+		impl, model, err := w.decode("C", optSet{}, readerSpec{Data: data, Sched: makeSched(rg, rg.intn(9), len(data))})
+		if err != nil {
+			return 2
+		}
+		r.Traces++
+		rep := map[string]interface{}{"entry": "DecodeChained", "input_hex": hexs(data), "records_per_file": []string{ss[0].specArgs(), ss[1].specArgs()}}
+		if impl.observable() != model.observable() {
+			r.corrFail("chained_decode", "model and implementation differ on a chain of time streams", rep)
+		}
+		if impl.Panic != "" || impl.ErrClass != 0 || len(impl.Raw) != len(ss) {
+			r.specFail("chained_time", fmt.Sprintf("DecodeChained on %d well-formed time streams: %d Files, error %q %s", len(ss), len(impl.Raw), impl.ErrText, impl.Panic), rep)
+			continue
+		}
+		for k, s := range ss {
+			sr, err := askSpec(w.d, s)
+			if err != nil {
+				return 2
+			}
+			if !sr.InDomain {
+				continue
+			}
+			if diff := compareFileWithSpec(impl.Raw[k], sr); diff != "" {
+				r.specFail("chained_time", fmt.Sprintf("file #%d of a chain: %s\n    records: %.400s", k+1, diff, s.specArgs()), rep)
+				break
+			}
+		}
+		r.count("chain"+hexs(data[:32])+fmt.Sprint(len(data)), true)
+		r.hist("chained_time_streams")
+	}
 	// date_time decoding itself through the hook: epoch + seconds, 0xFFFFFFFF is left invalid by the decoder
 	for _, u := range []uint32{0, 1, 0x0FFFFFFF, 0x10000000, 0x7FFFFFFF, 0x80000000, 0xFFFFFFFE} {
 		t := fit.VerifDecodeDateTime(u)
@@ -400,6 +440,41 @@ func runC13(args []string) int {
 		rep := map[string]interface{}{"entry": "Decode", "stream": s, "records": s.specArgs(), "input_hex": hexs(data)}
 		if undefinedLocal && impl.ErrClass == 0 && impl.Panic == "" {
 			r.specFail("undefined_local_accepted", "a data record whose local message type has no definition was accepted\n    records: "+s.specArgs(), rep)
+		}
+		// definitions do not survive a file boundary: in a chain, a later file that uses a local type only an
+		// EARLIER file defined must be rejected like the same file decoded alone
+		if i%25 == 7 && impl.ErrClass == 0 && !undefinedLocal {
+			var l byte
+			found := false
+			for _, rec := range s.Records[2:] {
+				if rec.Kind == "D" && rec.Local != s.Records[0].Local {
+					l, found = rec.Local, true
+				}
+			}
+			if found {
+				var dl *record
+				for k := range s.Records {
+					if s.Records[k].Kind == "D" && s.Records[k].Local == l {
+						dl = &s.Records[k]
+					}
+				}
+				pay, dev := genPayload(rg, st, dl)
+				s2 := &stream{HdrSize: 14, Proto: 0x10, Profile: 2115, HdrCRC: "ok", Records: []record{s.Records[0], s.Records[1], {Kind: "M", Local: l, Pay: pay, DevPay: dev}}}
+				s2.fillHex()
+				chain := append(append([]byte{}, data...), s2.bytes()...)
+				ic, mc, err := w.decode("C", optSet{}, readerSpec{Data: chain})
+				if err != nil {
+					return 2
+				}
+				repc := map[string]interface{}{"entry": "DecodeChained", "input_hex": hexs(chain), "records_file1": s.specArgs(), "records_file2": s2.specArgs()}
+				if ic.observable() != mc.observable() {
+					r.corrFail("chained_decode", "model and implementation differ on a chain", repc)
+				}
+				if ic.Panic == "" && ic.ErrClass == 0 {
+					r.specFail("undefined_local_accepted", fmt.Sprintf("DecodeChained accepts a second file whose data record uses local type %d, which only the FIRST file of the chain defined", l), repc)
+				}
+				r.hist("chained_second_file_uses_first_files_definition")
+			}
 		}
 		redefs := 0
 		seen := map[byte]bool{}
